@@ -59,9 +59,11 @@ static int sh_ncnt(int tier)
    sets of odd and even size) */
 static const int SH_DUPMIX[][2] = {{147, 3}, {147, 3}, {101, 3}, {202, 1}, {128, 2}, {255, 4}, {301, 2}, {175, 5}};
 #define SH_NDUPMIX 8
+/* a tight family of 130 related sequences plus one long unrelated outlier (k-means splits off a cluster of exactly one sequence) */
+#define SH_NOUTLIER 4
 static uint64_t shapes_count(int tier)
 {
-        return (uint64_t)sh_npairs(tier) + (uint64_t)sh_ncnt(tier) * 2 + (tier ? 4 : 2) + SH_NDUPMIX;
+        return (uint64_t)sh_npairs(tier) + (uint64_t)sh_ncnt(tier) * 2 + (tier ? 4 : 2) + SH_NDUPMIX + SH_NOUTLIER;
 }
 
 static const char* shapes_name(int idx, int tier)
@@ -81,6 +83,9 @@ static const char* shapes_name(int idx, int tier)
                 int k = idx - np;
                 const int* CNT = tier ? SH_CNT_THOROUGH : SH_CNT_QUICK;
                 snprintf(buf, sizeof buf, "%d sequences %s", CNT[k / 2], (k & 1) ? "protein" : "dna");
+        }else if(idx >= np + 2 * nc + (tier ? 4 : 2) + SH_NDUPMIX){
+                int k = idx - np - 2 * nc - (tier ? 4 : 2) - SH_NDUPMIX;
+                snprintf(buf, sizeof buf, "130 related sequences + one long outlier (%s, outlier %s)", (k & 1) ? "protein" : "dna", (k & 2) ? "last" : "first");
         }else if(idx >= np + 2 * nc + (tier ? 4 : 2)){
                 int k = idx - np - 2 * nc - (tier ? 4 : 2);
                 snprintf(buf, sizeof buf, "%d copies + %d others", SH_DUPMIX[k][0], SH_DUPMIX[k][1]);
@@ -129,6 +134,25 @@ static void shapes_build(int idx, int tier, long seed, struct kx_set* out)
                                 sh_derive(&st, alpha, bases[b], (int)strlen(bases[b]), (int)strlen(bases[b]) - (i % 4), tmp);
                                 kx_set_add(out, tmp, nm);
                         }
+                }
+        }else if(idx >= np + 2 * nc + (tier ? 4 : 2) + SH_NDUPMIX){
+                int k = idx - np - 2 * nc - (tier ? 4 : 2) - SH_NDUPMIX, i;
+                const char* alpha = (k & 1) ? "LKAVDEGSTN" : "ACG";
+                const char* oalpha = (k & 1) ? "WC" : "T";
+                static char out1[400];
+                sh_random_seq(&st, alpha, 120, base);
+                sh_random_seq(&st, oalpha, 300, out1);
+                if(!(k & 2)){
+                        kx_set_add(out, out1, "outlier");
+                }
+                for(i = 0; i < 130; i++){
+                        char nm[32];
+                        snprintf(nm, sizeof nm, "fam%03d", i);
+                        sh_derive(&st, alpha, base, 120, 120 - (i % 3), tmp);
+                        kx_set_add(out, tmp, nm);
+                }
+                if(k & 2){
+                        kx_set_add(out, out1, "outlier");
                 }
         }else if(idx >= np + 2 * nc + (tier ? 4 : 2)){
                 int k = idx - np - 2 * nc - (tier ? 4 : 2), i;
